@@ -109,9 +109,10 @@ def build_simbatch(desc):
             actions.append({"m": mid, "at": at, "op": "batch", "items": sub, "execute_after": sorted(rng.sample(range(len(sub)), min(len(sub), rng.randint(0, 2))))})
         if rng.random() < 0.3:
             actions.append(dict(_place(rng, mid, "q%d" % at), at=at))
-    # duplicate placement of an order that is already in the blotter
-    if n and rng.random() < 0.5:
-        actions.append({"m": mid, "at": 5, "op": "place", "ref": "p0", "reuse": True, "sel": [801, 0], "side": "BACK", "price": 3.0, "size": 2.0})
+    # duplicate placement of an order that is already in the blotter (also forced: force skips the controls, nothing else)
+    if n and rng.random() < 0.6:
+        valid = [i for i, it in enumerate(items) if it["size"] in (0.01, 0.5, 2.0) and it["price"] != 2.01] or [0]
+        actions.append({"m": mid, "at": 5, "op": "place", "ref": "p%d" % rng.choice(valid), "reuse": True, "sel": [801, 0], "side": "BACK", "price": 3.0, "size": 2.0, "force": rng.random() < 0.5})
     case = {"seed": desc["seed"], "idx": desc["idx"], "markets": [{"id": mid, "text": mf.text()}], "clients": [{"min_bet_validation": False}], "strategies": [{"name": "S0", "actions": actions}]}
     return case, {mid: G.read_lines(mf.lines)}
 
